@@ -6,9 +6,15 @@ import (
 	"context"
 	"fmt"
 	mrand "math/rand"
+	"sync"
+	"sync/atomic"
 	"time"
 
+	tss "github.com/IBM/TSS/types"
+
+	"verifharness/cluster"
 	"verifharness/common"
+	"verifharness/simnet"
 )
 
 type c11c struct {
@@ -158,4 +164,116 @@ func boolInt(b bool) int {
 		return 1
 	}
 	return 0
+}
+
+// unitC11orch: BLS / PS key generation through real Loud/Silent schemes; one node's transmissions vanish after its k-th
+// (all kinds: synchronisation, protocol, acknowledgements); the calls run under a deadline. A panic in one of the
+// orchestrator's background goroutines after KeyGen returned kills the child and is reported by the parent.
+func unitC11orch(e common.Env, p *common.Part) {
+	p.Rule = "BLS and PS key generation through real LoudScheme (real disc.Member) and SilentScheme objects on the simulated network, n=3, t=2; node 3 goes silent after its k-th transmission of any kind, k = 0..K (K = 45 loud, 14 silent; quick: every second k); deadline 120..250 ms with PRNG phase; oracle: every KeyGen returns an error or a success with consistent public material within 5 s after the deadline, and the process survives a settle window of 30 ms (background goroutines); distinct key = (scheme, mode, k); non-trivial when the muted node had transmitted at least k+1 times in an earlier reference run (the fault took effect)"
+	type cs struct {
+		sch    scheme
+		silent bool
+		k      int
+	}
+	var cases []cs
+	step := e.Pick(2, 1)
+	for _, sch := range []scheme{{Name: "bls"}, {Name: "ps", MsgLen: 1}} {
+		for _, silent := range []bool{false, true} {
+			K := 45
+			if silent {
+				K = 14
+			}
+			for k := 0; k <= K; k += step {
+				cases = append(cases, cs{sch, silent, k})
+			}
+		}
+	}
+	for i, c := range cases {
+		if !e.Mine(i) || p.ViolationCount() >= 3 {
+			continue
+		}
+		mode := "loud"
+		if c.silent {
+			mode = "silent"
+		}
+		key := fmt.Sprintf("%s %s node 3 silent after %d transmissions", c.sch.Name, mode, c.k)
+		p.Begin(key)
+		rng := e.Rng("c11orch", i)
+		ids := []uint16{1, 2, 3}
+		sch := c.sch
+		cl := cluster.New(cluster.Config{Map: map[uint16]uint16{1: 1, 2: 2, 3: 3}, Silent: c.silent, Threshold: 1,
+			KGF: func(node uint16) tss.KeyGenerator { return sch.newKG(node) },
+			SF:  func(node uint16) tss.Signer { return sch.newSigner(node) }})
+		go cl.Net.RunRandom(rng, simnet.Uniform)
+		var sent int32
+		cl.Net.SetInterceptor(3, func(nw *simnet.Net, src uint16, typ uint8, topic, data []byte, dsts []uint16) []simnet.Outgoing {
+			if int(atomic.AddInt32(&sent, 1)) > c.k {
+				return nil
+			}
+			var o []simnet.Outgoing
+			for _, d := range dsts {
+				o = append(o, simnet.Outgoing{Dst: d, Type: typ, Topic: topic, Data: data})
+			}
+			return o
+		})
+		if c.silent {
+			cl.SetPick(tss.DkgTopicName, ids)
+		}
+		ctx, cancel := context.WithTimeout(context.Background(), time.Duration(120+rng.Intn(130))*time.Millisecond)
+		outs, errs := map[uint16][]byte{}, map[uint16]error{}
+		var mu sync.Mutex
+		var wg sync.WaitGroup
+		for _, u := range ids {
+			u := u
+			wg.Add(1)
+			go func() {
+				defer wg.Done()
+				o, err := cl.Schemes[u].KeyGen(ctx, 3, 2)
+				mu.Lock()
+				outs[u], errs[u] = o, err
+				mu.Unlock()
+			}()
+		}
+		done := make(chan struct{})
+		go func() { wg.Wait(); close(done) }()
+		hang := false
+		select {
+		case <-done:
+		case <-time.After(6 * time.Second):
+			hang = true
+		}
+		cancel()
+		time.Sleep(30 * time.Millisecond) // settle window: the continuation goroutines of the session run out
+		cl.Net.Stop()
+		effective := int(atomic.LoadInt32(&sent)) > c.k
+		p.Case(key, effective)
+		p.Count("runs", 1)
+		if effective {
+			p.Count("faults_effective", 1)
+		}
+		if hang {
+			p.Violate("hang/orchestrated-"+c.sch.Name, key+": a KeyGen call had not returned 5 s after its deadline", nil)
+			continue
+		}
+		var completers []uint16
+		mu.Lock()
+		for _, u := range ids {
+			if errs[u] == nil {
+				completers = append(completers, u)
+				p.Count("success_returns", 1)
+			} else {
+				p.Count("error_returns", 1)
+			}
+		}
+		mu.Unlock()
+		if len(completers) >= 2 {
+			if v := consistentPublicMaterial(completers, outs); v != "" {
+				p.Violate("nil-error-with-inconsistent-data/orchestrated-"+c.sch.Name, key+": "+v, nil)
+			}
+		}
+		if i%13 == 0 {
+			p.Sample(map[string]interface{}{"case": key, "transmissions_of_node_3": atomic.LoadInt32(&sent), "errors": fmt.Sprint(errs)})
+		}
+	}
 }
